@@ -612,7 +612,7 @@ func famC19(rn *Runner) {
 			if !ok {
 				rn.Report(&Replay{Family: "unmarshal", Clause: "target value / error after Unmarshal", Kind: "unm", Events: d.Events, Doc: showEvents(d.Events),
 					Input: fmt.Sprintf("case %d of document %d (seed %d): type %s, value before %s, result %s, model command %s", i, di, rn.Seed, typeSx(bt), before, res.Show(), cmd),
-					Impl: impl, Model: model},
+					Impl:  impl, Model: model},
 					fmt.Sprintf("Unmarshal(%s into %s = %s): implementation %s, model %s", res.Show(), tsx, before, impl, model))
 				continue
 			}
